@@ -1,9 +1,10 @@
-\* exhaustive, parameters focus: block > 2 components (shared definitions), nesting 3, all keep-sets (thorough)
-CONSTANTS N = 3  Par = {"p", "q"}  NVal = 2  NGrid = 2  MaxDepth = 3  MaxLevel = 5
+\* edge emission, read-only family with copies: assembly > block > 2 components + pool (thorough)
+CONSTANTS N = 8  Par = {"p", "q"}  NVal = 2  NGrid = 2  MaxDepth = 1  MaxLevel = 4
           GridSlot = "stack"  PickleSerial = "fresh"  DbSerial = "max"
-CONSTANTS Keeps <- KeepsFull  Acts <- ActsParams  Parent0 <- ParentA  Cls0 <- ClsA
+CONSTANTS Keeps <- KeepsNone  Acts <- ActsRO  Parent0 <- ParentC  Cls0 <- ClsC
           ParOf <- McParOf  GridCls <- McGridCls  MatCls <- McMatCls
           DbCls <- McDbCls  CopyCls <- McAllCls  CallsOf <- McCallsOf
+ACTION_CONSTRAINT Emit
 INIT Init
 NEXT Next
 CONSTRAINT Bound
